@@ -99,7 +99,7 @@ Q q_observe()
     vf_assert(k_idx(o, pos) == e, "operator[](pos) const == std");
     vf_assert(k_ref_get(o, pos) == e, "bool(operator[](pos)) == std");
     vf_assert(k_ref_not(o, pos) == !e, "~operator[](pos) == std");
-    if (!e && k_any(o)) vf_witness("bit clear, others set");
+    if (NBITS > 1 && !e && k_any(o)) vf_witness("bit clear, others set");
     if (k_all(o)) vf_witness("all");
 }
 // the observers that are defined bit by bit must not look at the unused high bits at all (padding bits symbolic here)
